@@ -115,6 +115,13 @@ func (e *Engine) userFunc() string {
 	return "?"
 }
 
+func (e *Engine) topFunc() string {
+	if len(e.stack) > 0 {
+		return e.info(e.stack[len(e.stack)-1]).short
+	}
+	return "?"
+}
+
 func (e *Engine) global(g *ssa.Global) *Slot {
 	s, ok := e.globals[g]
 	if !ok {
@@ -618,6 +625,9 @@ func (e *Engine) indexSeq(f *frame, ins ssa.Instruction, n int, at func(int) Val
 	}
 	w := idx.sort.W
 	inb := e.b.Bin(OBvULT, idx, e.b.BVu(uint64(n), w)) // negative signed values are huge unsigned
+	if w < 64 && uint64(n) >= uint64(1)<<uint(w) {
+		inb = e.b.tt
+	}
 	e.x.checkPanic(e.b.Not(inb), f.fn, ins, "index out of range (symbolic)")
 	if n > 300 {
 		i := e.x.concretize(idx, sg, "index", 0, int64(n-1), nil)
@@ -674,8 +684,11 @@ func (e *Engine) indexAddr(f *frame, in *ssa.IndexAddr) Value {
 	} else {
 		w := idx.sort.W
 		inb := e.b.Bin(OBvULT, idx, e.b.BVu(uint64(n), w))
+		if w < 64 && uint64(n) >= uint64(1)<<uint(w) {
+			inb = e.b.tt
+		}
 		e.x.checkPanic(e.b.Not(inb), f.fn, in, "index out of range (symbolic)")
-		if _, scalar := elem.Underlying().(*types.Basic); scalar && n <= 64 && n > 0 {
+		if bt, scalar := elem.Underlying().(*types.Basic); scalar && bt.Info()&types.IsString == 0 && n <= 64 && n > 0 {
 			return &SymPtr{base: base, off: off, n: n, idx: idx}
 		}
 		i = int(e.x.concretize(idx, sg, "indexaddr", 0, int64(n-1), nil))
